@@ -979,7 +979,7 @@ fn gen(a: &Args) {
             }
         }
     }
-    let cases = if thorough { 4000 } else { 300 };
+    let cases = if thorough { 30000 } else { 1200 };
     for c in 0..cases {
         gen_case(&mut *w, &mut rng, &format!("r{c}"), prop, thorough && c % 4 == 0);
     }
